@@ -121,6 +121,31 @@ def rule_total(ctx):
     return rr
 
 
+def _after_try(f, tr):
+    """The statements that follow the try statement in its block."""
+    for holder in ast.walk(f.node):
+        for fld in ('body', 'orelse', 'finalbody'):
+            stmts = getattr(holder, fld, None)
+            if isinstance(stmts, list) and any(x is tr for x in stmts):
+                i = [j for j, x in enumerate(stmts) if x is tr][0]
+                return stmts[i + 1:]
+    return []
+
+
+def _subst(expr, env):
+    """expr with the local names of env replaced by what was assigned."""
+    import copy
+    if expr is None or not env:
+        return expr
+
+    class T(ast.NodeTransformer):
+        def visit_Name(self, n):
+            if isinstance(n.ctx, ast.Load) and n.id in env:
+                return copy.deepcopy(env[n.id])
+            return n
+    return T().visit(copy.deepcopy(expr))
+
+
 def rule_catch(ctx):
     rr = RuleResult('C11', 'C11.catch', 'TAB+ESC',
                     'handler table of the catch-all; re-raised BaseError '
@@ -134,17 +159,62 @@ def rule_catch(ctx):
     ex = Exceptions(ctx)
     base_error = ExcClass('BaseError', pkg=p.cls('formulas/errors.py', 'BaseError'))
     found = ExcClass('FoundError', pkg=p.cls('formulas/errors.py', 'FoundError'))
-    table = []  # (classes, action) action: 'return', 'raise'
+    # rows (classes, action, handler, returned value): action is 'return' /
+    # 'raise' / 'fallthrough'.  A handler that ends without return or raise
+    # continues after the try: when that code returns, the handler returns
+    # (the value with the handler's own assignments substituted).  A handler
+    # that re-raises unless the exception is of class K is two rows: K
+    # continues, the rest is raised.
+    table = []
+    after = _after_try(inner, tr)
+
+    def classify(stmts, classes, h, env):
+        """rows for executing `stmts` of handler h when one of classes is
+        caught; env: local name -> expression assigned so far."""
+        import copy
+        for i, st in enumerate(stmts):
+            if isinstance(st, ast.Assign) and len(st.targets) == 1 and \
+                    isinstance(st.targets[0], ast.Name):
+                env = dict(env)
+                env[st.targets[0].id] = st.value
+                continue
+            if isinstance(st, ast.Raise):
+                return [(classes, 'raise', h, None)]
+            if isinstance(st, ast.Return):
+                return [(classes, 'return', h, _subst(st.value, env))]
+            if isinstance(st, ast.If):
+                t, neg = st.test, False
+                while isinstance(t, ast.UnaryOp) and isinstance(t.op, ast.Not):
+                    t, neg = t.operand, not neg
+                if isinstance(t, ast.Call) and isinstance(
+                        t.func, ast.Name) and t.func.id == 'isinstance' and \
+                        len(t.args) == 2 and isinstance(
+                        t.args[0], ast.Name) and t.args[0].id == h.name:
+                    ks = t.args[1].elts if isinstance(
+                        t.args[1], ast.Tuple) else [t.args[1]]
+                    kcls = [ex.exc_of_expr(inner, k) for k in ks]
+                    if all(k is not None for k in kcls):
+                        rest = stmts[i + 1:]
+                        yes, no = (st.orelse, st.body) if neg else (
+                            st.body, st.orelse)
+                        return classify(list(yes) + rest, kcls, h, env) + \
+                            classify(list(no) + rest, classes, h, env)
+                return [(classes, 'unknown', h, None)]
+            if isinstance(st, (ast.Expr, ast.Pass)):
+                continue
+            return [(classes, 'unknown', h, None)]
+        # fell off the end of the handler: the code after the try runs
+        if after and isinstance(after[-1], ast.Return) and all(
+                isinstance(a, (ast.Return, ast.Expr, ast.Pass))
+                for a in after):
+            return [(classes, 'return', h, _subst(after[-1].value, env))]
+        return [(classes, 'fallthrough', h, None)]
+
     for h in tr.handlers:
-        classes = ex.handler_classes(inner, h)
-        last = h.body[-1] if h.body else None
-        if isinstance(last, ast.Raise):
-            action = 'raise'
-        elif isinstance(last, ast.Return):
-            action = 'return'
-        else:
-            action = 'fallthrough'
-        table.append((classes, action, h))
+        table.extend(classify(h.body, ex.handler_classes(inner, h), h, {}))
+    if any(r[1] == 'unknown' for r in table):
+        raise AnalysisError('wrap_func.wrapper: a handler of the catch-all '
+                            'try was not followed')
     rr.instances += len(table)
     # (a) a catch-all that returns
     catch_all = [t for t in table if any(
@@ -157,7 +227,7 @@ def rule_catch(ctx):
                 line=tr.lineno)
     else:
         h = catch_all[-1][2]
-        val = h.body[-1].value
+        val = catch_all[-1][3]
         if val is None or '#VALUE!' not in norm_src(val):
             rr.fail(key_of(w, 'catch-all does not return #VALUE!'),
                     'the catch-all handler does not return the #VALUE! error',
@@ -167,12 +237,12 @@ def rule_catch(ctx):
                 w.module.rel, h.lineno))
     # (b) FoundError -> payload
     fh = None
-    for classes, action, h in table:
+    for classes, action, h, val_ in table:
         if any(c == found for c in classes):
-            fh = (action, h)
+            fh = (action, h, val_)
             break
         if any(ex.is_sub(found, c) for c in classes):
-            fh = ('shadowed', h)
+            fh = ('shadowed', h, val_)
             break
     if fh is None or fh[0] != 'return':
         rr.fail(key_of(w, 'FoundError not mapped to payload'),
@@ -181,7 +251,7 @@ def rule_catch(ctx):
                 function=inner.qualname, line=tr.lineno)
     else:
         h = fh[1]
-        val = h.body[-1].value
+        val = fh[2]
         uses_err = h.name and any(
             isinstance(n, ast.Attribute) and n.attr == 'err' and isinstance(
                 n.value, ast.Name) and n.value.id == h.name
@@ -197,7 +267,7 @@ def rule_catch(ctx):
     # (c) BaseError classes re-raised by the wrapper
     handled_before = []
     reraised_bases = []
-    for classes, action, h in table:
+    for classes, action, h, _v in table:
         if action == 'raise':
             reraised_bases.extend(classes)
         else:
@@ -238,7 +308,7 @@ def rule_catch(ctx):
                 for rb in reraised_bases)):
             # caught (FoundError / InvalidRangeError) by an earlier handler
             first = None
-            for classes, action, h in table:
+            for classes, action, h, _v in table:
                 if any(ex2.is_sub(c, k) for k in classes):
                     first = action
                     break
@@ -1069,8 +1139,57 @@ def ignored_arguments(ctx, f, names):
                             guarded = True
             if guarded:
                 continue
+            # every definition of the name is an error value (or None): taken
+            # from the error table, or the matching element of what a private
+            # helper returns (`err, x = _helper(x)` with `return errors[..],
+            # None` / `return None, value` in the helper)
+            if _error_or_none(ctx, f, v.id):
+                continue
         res.append((cn.ast, sorted(pend)))
     return res
+
+
+def _error_or_none(ctx, f, name):
+    def is_err(e):
+        t = norm_src(e)
+        return 'errors[' in t or 'get_error(' in t or (
+            isinstance(e, ast.Constant) and e.value is None)
+
+    defs = []
+    for n in own_nodes(f):
+        if not isinstance(n, ast.Assign):
+            continue
+        for t in n.targets:
+            if isinstance(t, ast.Name) and t.id == name:
+                defs.append(('v', n.value))
+            elif isinstance(t, (ast.Tuple, ast.List)):
+                for i, e in enumerate(t.elts):
+                    if isinstance(e, ast.Name) and e.id == name:
+                        if isinstance(n.value, (ast.Tuple, ast.List)) and \
+                                len(n.value.elts) == len(t.elts):
+                            defs.append(('v', n.value.elts[i]))
+                        else:
+                            defs.append(('u', n.value, i, len(t.elts)))
+    if not defs:
+        return False
+    for d in defs:
+        if d[0] == 'v':
+            if not is_err(d[1]):
+                return False
+            continue
+        _k, call, i, n_ = d
+        if not (isinstance(call, ast.Call) and isinstance(
+                call.func, (ast.Name, ast.Attribute))):
+            return False
+        r = ctx.cg.resolve_name_expr(f, call.func)
+        if not (r and r[0] == 'func'):
+            return False
+        rets = [x.value for x in own_nodes(r[1]) if isinstance(x, ast.Return)]
+        if not rets or not all(
+                isinstance(x, ast.Tuple) and len(x.elts) == n_ and
+                is_err(x.elts[i]) for x in rets):
+            return False
+    return True
 
 
 def _node_functions(ctx):
